@@ -9,8 +9,9 @@
 #include <string.h>
 int h4v_sprintf(char *buf, const char *fmt, int n, long a0, const char *s0, long a1, const char *s1, long a2,
                 const char *s2, long a3, const char *s3, long a4, const char *s4);
-#define H4V_L(x) _Generic((x), char *: 0L, const char *: 0L, default: (long)(x))
-#define H4V_S(x) _Generic((x), char *: (x), const char *: (x), default: (const char *)0)
+/* (x) + 0 makes an array argument (string literal / char buffer) decay to a pointer (goto-cc's _Generic does not) */
+#define H4V_L(x) _Generic((x) + 0, char *: 0L, const char *: 0L, default: (long)(x))
+#define H4V_S(x) _Generic((x) + 0, char *: (const char *)(x), const char *: (const char *)(x), default: (const char *)0)
 #define H4V_A(x) H4V_L(x), H4V_S(x)
 #define H4V_Z    0L, (const char *)0
 #define h4v_sp1(b, f)                h4v_sprintf(b, f, 0, H4V_Z, H4V_Z, H4V_Z, H4V_Z, H4V_Z)
